@@ -2,3 +2,12 @@ mod page_token;
 mod parser;
 pub(crate) mod publisher;
 pub(crate) mod subscriber;
+
+#[cfg(deltio_verif)]
+pub(crate) mod verif_page_token {
+    pub(crate) use super::page_token::*;
+}
+#[cfg(deltio_verif)]
+pub(crate) mod verif_parser {
+    pub(crate) use super::parser::*;
+}
